@@ -83,7 +83,7 @@ class Model(object):
             evs.append(('GS',))
         if top == 'GS':
             evs.append(('ST',))
-        evs += [('X',), ('E',)]
+        evs += [('X',), ('E',), ('LS',), ('LE',)]          # LS / LE (bounded loop markers) are ordinary body segments for the writer
         if top == 'ST':
             evs.append(('HL', 'root'))
             if self.hl_n:
@@ -155,6 +155,10 @@ class Model(object):
             assert self.stack
             self.inputs.append(sele.join(['REF', 'N%d' % pos, 'B' + ssub + 'C']))
             self.out.append(['REF', [['N%d' % pos], ['B', 'C']]])
+        elif k in ('LS', 'LE'):
+            assert self.stack
+            self.inputs.append(sele.join([k, '2120']))
+            self.out.append([k, [['2120']]])
         elif k == 'E':
             assert self.stack
             self.inputs.append(sele.join(['DTP', '%d' % pos, '', ssub.join(['D8', 'X', 'Y']), 'Z']))
